@@ -34,7 +34,8 @@ def run(ctx):
             return c.declared is not None and c.declared.endswith("FormatHandler::handle_formatted_file")
         try:
             paths = explore(f, is_effect=stage, pure=lambda c: c.name.endswith("to_owned") or c.name.endswith("newline_style")
-                            or c.name.endswith("entire_snippet"), max_paths=20000)
+                            or c.name.endswith("entire_snippet") or c.name.endswith("Clone>::clone") or c.name.endswith("::to_string"),
+                            max_paths=20000)
         except TooManyPaths as e:
             r.undecidable(A, str(e))
             paths = []
@@ -62,7 +63,7 @@ def run(ctx):
                 bufs.append(referent_place(vkey(arg)))
             same = len(set(bufs)) == 1 and bufs[0].endswith(".buffer")
             last = vkey(effs[4].args[3]) if len(effs[4].args) > 3 else ""
-            m = re.search(r"to_owned\((.*)\)$", last)
+            m = re.search(r"(?:to_owned|clone|to_string)\((.*)\)$", last)
             emitted_ok = bool(m) and referent_place(m.group(1)) == bufs[0]
             if not same or not emitted_ok:
                 r.violation(A, "format_file: stages do not share the visitor's buffer",
@@ -261,6 +262,13 @@ def blank_line_clamp(ctx, rid):
             up = [a for a in atoms if "blank_lines_upper_bound" in a]
             lo = [a for a in atoms if "blank_lines_lower_bound" in a]
             off = [a for a in atoms if ".buffer" in a]
+            # the count of newlines already in the buffer, computed by a private helper of the visitor (`self.trailing_newline_count()`)
+            for a in sorted(atoms):
+                if a in off or not a.endswith("(arg1)"):
+                    continue
+                hs = [h for h in p.by_crate["rustfmt_nightly"] if h.kind != "Closure" and h.argc == 1 and a[:-len("(arg1)")].endswith(short(h.id))]
+                if len(hs) == 1 and "usize" in hs[0].locals[0] and any(str(fld) == "buffer" for (adt, var, fld, mode, bb, line) in hs[0].field_accesses()):
+                    off.append(a)
             opaque = sorted(a for a in atoms if a not in up + lo + off and a != "arg2")
             if opaque:
                 # an operation the numeric domain does not model took part in the count: no verdict either way
